@@ -95,6 +95,7 @@ type inst struct {
 	base string
 	fn   string
 	n    int
+	held int // > 0 while instrumenting statements nested inside a locked region
 }
 
 func (in *inst) yield(pos token.Pos) ast.Stmt {
@@ -106,11 +107,49 @@ func (in *inst) yield(pos token.Pos) ast.Stmt {
 	}}
 }
 
+// lockCall reports whether s is a call statement x.Lock()/x.RLock() (+1) or
+// x.Unlock()/x.RUnlock() (-1).
+func lockCall(s ast.Stmt) int {
+	es, ok := s.(*ast.ExprStmt)
+	if !ok {
+		return 0
+	}
+	call, ok := es.X.(*ast.CallExpr)
+	if !ok {
+		return 0
+	}
+	sel, ok := call.Fun.(*ast.SelectorExpr)
+	if !ok {
+		return 0
+	}
+	switch sel.Sel.Name {
+	case "Lock", "RLock":
+		return 1
+	case "Unlock", "RUnlock":
+		return -1
+	}
+	return 0
+}
+
 func (in *inst) list(stmts []ast.Stmt) []ast.Stmt {
 	var out []ast.Stmt
+	held := 0
 	for _, s := range stmts {
-		in.stmt(s)
-		out = append(out, in.yield(s.Pos()), s)
+		// never park with a lock held: a goroutine blocked on a mutex is not durably
+		// blocked for synctest, the simulation would stall
+		if held == 0 && in.held == 0 {
+			in.stmt(s)
+			out = append(out, in.yield(s.Pos()), s)
+		} else {
+			in.held++
+			in.stmt(s)
+			in.held--
+			out = append(out, s)
+		}
+		held += lockCall(s)
+		if held < 0 {
+			held = 0
+		}
 	}
 	return out
 }
